@@ -21,7 +21,7 @@ import (
 	"verif/harness/ev"
 )
 
-const rule = "cases = (logger level, global level, event level) triples: the full 256^3 grid in thorough, 256x256x{-128,-2..8,127} plus random triples in quick, through WithLevel and the named methods, with and without a call-recording sampler; every exported *Event method (found by reflection) on filtered events of four origins with instrumented arguments; Level text round-trips for all 256 levels; Panic/Fatal behaviour in re-executed children. oracle = written iff lvl>=logger && lvl>=global && lvl!=Disabled (and the sampler admits), WriteLevel gets lvl, sampler consulted only when both gates pass, inertness counters stay 0. non-trivial = triples where exactly one gate decides or lvl is NoLevel/Disabled/custom; one per (method, filtered-event origin). distinct by construction (enumeration) or FNV-64"
+const rule = "cases = (logger level, global level, event level) triples: the full 256^3 grid in thorough, 256x256x{-128,-2..8,127} plus random triples in quick, through WithLevel and the named methods, with and without a call-recording sampler; every exported *Event method (found by reflection) on filtered events of nine origins (Nop, level gate, WithLevel(Disabled), Discard, sampler, global level, zero-value Logger with and without a sampler, the Ctx fallback logger) with instrumented arguments; Level text round-trips for all 256 levels; Panic/Fatal behaviour in re-executed children. oracle = written iff lvl>=logger && lvl>=global && lvl!=Disabled (and the sampler admits), WriteLevel gets lvl, sampler consulted only when both gates pass, inertness counters stay 0. non-trivial = triples where exactly one gate decides or lvl is NoLevel/Disabled/custom; one per (method, filtered-event origin). distinct by construction (enumeration) or FNV-64"
 
 var rec = ev.New("C04", rule)
 
@@ -314,6 +314,11 @@ func TestLevelText(t *testing.T) {
 
 type counters struct{ n int }
 
+// cSampler admits everything and counts being consulted.
+type cSampler struct{ c *counters }
+
+func (s cSampler) Sample(zerolog.Level) bool { s.c.n++; return true }
+
 type cStringer struct{ c *counters }
 
 func (s cStringer) String() string { s.c.n++; return "s" }
@@ -451,6 +456,20 @@ func filteredEvents(c *counters, w *lw) map[string]func() *zerolog.Event {
 			l := zerolog.New(w).Sample(&zerolog.BasicSampler{N: 0}).Hook(cHook{c})
 			return l.Error()
 		},
+		"zero-value-logger": func() *zerolog.Event {
+			var z zerolog.Logger // no writer: nothing can be written, so nothing may run
+			l := z.Hook(cHook{c})
+			return l.Warn()
+		},
+		"zero-value-logger+sampler": func() *zerolog.Event {
+			var z zerolog.Logger
+			l := z.Sample(cSampler{c}).Hook(cHook{c}) // a sampler that would admit (and counts being asked)
+			return l.Error()
+		},
+		"Ctx-fallback-logger": func() *zerolog.Event {
+			l := zerolog.Ctx(context.Background()).Sample(cSampler{c}).Hook(cHook{c})
+			return l.Error()
+		},
 		"global-level": func() *zerolog.Event {
 			zerolog.SetGlobalLevel(zerolog.PanicLevel)
 			l := zerolog.New(w).Hook(cHook{c})
@@ -463,7 +482,7 @@ func filteredEvents(c *counters, w *lw) map[string]func() *zerolog.Event {
 
 func TestFilteredEventsInert(t *testing.T) {
 	et := reflect.TypeOf((*zerolog.Event)(nil))
-	origins := []string{"Nop-logger", "level-gated", "WithLevel(Disabled)", "Discard()", "sampled-out", "global-level"}
+	origins := []string{"Nop-logger", "level-gated", "WithLevel(Disabled)", "Discard()", "sampled-out", "global-level", "zero-value-logger", "zero-value-logger+sampler", "Ctx-fallback-logger"}
 	rec.Class(fmt.Sprintf("event-methods-found:%d", et.NumMethod()), 1)
 	rapid.Check(t, func(rt *rapid.T) {
 		c := &counters{}
@@ -535,7 +554,7 @@ func TestFilteredEventsInert(t *testing.T) {
 func TestFilteredEventsInertAllMethods(t *testing.T) {
 	et := reflect.TypeOf((*zerolog.Event)(nil))
 	for mi := 0; mi < et.NumMethod(); mi++ {
-		for oi := 0; oi < 6; oi++ {
+		for oi := 0; oi < 9; oi++ {
 			mi, oi := mi, oi
 			seedT := &testing.T{}
 			_ = seedT
@@ -544,7 +563,7 @@ func TestFilteredEventsInertAllMethods(t *testing.T) {
 				// argFor for arguments only
 				c := &counters{}
 				w := &lw{}
-				origins := []string{"Nop-logger", "level-gated", "WithLevel(Disabled)", "Discard()", "sampled-out", "global-level"}
+				origins := []string{"Nop-logger", "level-gated", "WithLevel(Disabled)", "Discard()", "sampled-out", "global-level", "zero-value-logger", "zero-value-logger+sampler", "Ctx-fallback-logger"}
 				e := filteredEvents(c, w)[origins[oi]]()
 				w.n = 0
 				m := et.Method(mi)
@@ -580,7 +599,7 @@ func TestFilteredEventsInertAllMethods(t *testing.T) {
 			})
 		}
 	}
-	rec.Bulk(int64(et.NumMethod()*6), int64(et.NumMethod()*6), "inert-all-methods")
+	rec.Bulk(int64(et.NumMethod()*9), int64(et.NumMethod()*9), "inert-all-methods")
 	rec.Exhaustive(fmt.Sprintf("every exported *Event method (%d, by reflection) x 6 filtered-event origins", et.NumMethod()))
 }
 
